@@ -11,3 +11,4 @@ for pid in "$@"; do
 done
 git -C /repo checkout -- . ; git -C /repo status --short | head -3
 rm -rf /verif/evidence && mv /tmp/evidence_backup /verif/evidence
+rm -f /verif/replays/*.json   # replays written while a patch was applied are not about the tree
